@@ -35,6 +35,10 @@ pub fn compute_digest(challenge: u32, cookie: &str) -> [u8; 16] {
 }
 
 pub fn generate_challenge() -> u32 {
+    #[cfg(edp_rs_verif)]
+    if let Some(forced) = crate::verif_hooks::take_forced_challenge() {
+        return forced;
+    }
     let nanos = SystemTime::now()
         .duration_since(UNIX_EPOCH)
         .unwrap_or_else(|_| Duration::from_secs(0))
